@@ -77,6 +77,35 @@ def lying(rng):
     ]
 
 
+def text_fields():
+    """host names / protocol names that the Debug impls decode as UTF-8: multi-byte characters at every alignment, so
+    that a byte-offset cut at any fixed position (a truncated log line) falls inside a character in at least one
+    of them; plus malformed UTF-8. The values must format, whatever they are."""
+    out = []
+    units = ['\u00e9', '\u20ac', '\U0001f600']
+    pats = []
+    for u in units:
+        w = len(u.encode())
+        for pre in range(w):
+            pats.append(lambda n, u=u, pre=pre, w=w: (b'a' * pre + u.encode() * (max(0, n - pre) // w + 1))[:max(n, 0) // 1] if False else (b'a' * pre + u.encode() * ((max(0, n - pre) + w - 1) // w)))
+    bad = [b'\xc3', b'\xe2\x82', b'\x80\x80', b'\xff', b'\xc0\xaf', b'\xed\xa0\x80', b'abc\xf0\x9f\x98']
+    lens = [1, 2, 3, 4, 7, 8, 9, 31, 32, 33, 63, 64, 65, 127, 128, 129, 254, 255, 256, 257, 258, 511, 512, 513, 1023, 1024, 1025, 4095, 4097, 8191, 16000]
+    names = [p(n) for p in pats for n in lens] + bad + [b'x' * n + b_ for n in (0, 253, 254, 255, 256) for b_ in bad]
+    for nm in names:
+        if len(nm) <= 65000:
+            lst = b'\0' + len(nm).to_bytes(2, 'big') + nm
+            content = len(lst).to_bytes(2, 'big') + lst
+            if len(content) < 65536:
+                e = b'\0\0' + len(content).to_bytes(2, 'big') + content
+                out += [('ext', e), ('ext_client', e + b'\0\x17\0\0'), ('ext_tag_sni', e), ('ext_c_sni', content)]
+        if len(nm) <= 255:
+            lst = bytes([len(nm)]) + nm + b'\2h2'
+            content = len(lst).to_bytes(2, 'big') + lst
+            e = b'\0\x10' + len(content).to_bytes(2, 'big') + content
+            out += [('ext', e), ('ext_server', e), ('ext_c_alpn', content)]
+    return out
+
+
 def run(ctx):
     core.build_harness()
     ok = common.lean_step(ctx, MODULES)
@@ -93,7 +122,7 @@ def run(ctx):
         b = rng.choice(g)
         lines.append('rec_with_hdr %d %d %d %s' % (rng.choice((20, 21, 22, 23, 24, 25, 0, 255)), rng.randrange(65536), rng.choice((0, 2, 3, len(b), 65535)), core.hexs(b)))
         lines.append('dtls_rec_with_hdr %d %d %d %s' % (rng.choice((20, 21, 22, 23, 24, 0)), rng.randrange(65536), len(b), core.hexs(b)))
-    for op, b in lying(rng):
+    for op, b in lying(rng) + text_fields():
         lines.append('%s %s' % (op, core.hexs(b)))
     # well-formed values of every family and their corruptions (all prefixes for small ones)
     n = 200 if ctx.thorough else 20
@@ -147,7 +176,7 @@ def run(ctx):
     ctx.sample({'line': hl[0][:200], 'impl': impl[len(lines) - len(hl)][:300]})
     common.lean_failure_violation(ctx, ok)
     return ctx.finish(LEVEL,
-        rule='every public parse op on: empty input, 1-2 byte strings, random bytes with planted extreme length fields, tiny inputs declaring huge lengths/counts, cap-sized records of minimal-size elements, all independent-encoder families and their corruptions; defragmenter oracle and random histories (incl. empty first fragments); each call under catch_unwind with overflow-checks and debug-assertions on, counting allocator, Debug/Display of every returned value; verdicts: panic / crash / fmt panic / peak heap above %d*len+%d (+10 MiB for the defragmenter); distinct = (op, outcome shape)' % (HEAP_A, HEAP_B),
+        rule='every public parse op on: empty input, 1-2 byte strings, random bytes with planted extreme length fields, tiny inputs declaring huge lengths/counts, cap-sized records of minimal-size elements, host / protocol names made of multi-byte UTF-8 characters at every alignment and of malformed UTF-8, all independent-encoder families and their corruptions; defragmenter oracle and random histories (incl. empty first fragments); each call under catch_unwind with overflow-checks and debug-assertions on, counting allocator, Debug/Display of every returned value; verdicts: panic / crash / fmt panic / peak heap above %d*len+%d (+10 MiB for the defragmenter); distinct = (op, outcome shape)' % (HEAP_A, HEAP_B),
         checker_cmd='cd /verif/lean && lake build TlsModel.Props.C01',
         assumptions=['PARTIAL: absence of panics and termination are theorems about the model (81 entry points + all defragmenter histories); heap bytes, formatting and wall-clock are measured on the implementation, not proved',
                      'a hang would surface as a check timeout (no per-case watchdog)'])
